@@ -33,6 +33,7 @@ type Scope struct {
 	app.Injector
 
 	cid        string
+	closing    bool
 	closed     bool
 	closeStack string
 	mu         sync.Mutex
@@ -117,9 +118,13 @@ func (scp *Scope) Close() (err error) {
 	defer scp.mu.Unlock()
 	scp.preventDoubleClosed()
 	scp.closeStack = string(debug.Stack())
-	scp.closed = true
+	scp.closing = true
 	scp.appendError(scp.EventScope.Trigger(app.BeforeCloseEvent, scp))
-	if err = scp.Wait(); err != nil {
+	// the tasks Close waits for still belong to the scope: they may report errors
+	// (AppendError, Kill, Stop) until they are done, so the scope counts as closed after the wait
+	err = scp.Wait()
+	scp.closed = true
+	if err != nil {
 		scp.appendError(scp.EventScope.Trigger(app.BeforeRollbackEvent, scp))
 		scp.appendError(scp.EventScope.Trigger(app.RollbackEvent, scp))
 		scp.appendError(scp.EventScope.Trigger(app.AfterRollbackEvent, scp))
@@ -145,7 +150,7 @@ func (scp *Scope) close() {
 }
 
 func (scp *Scope) preventDoubleClosed() {
-	if scp.closed {
+	if scp.closing {
 		panic(goaterr.Errorf("scope [%s] is closed at:\n%s\nAND AT:\n %s\n\n", scp.sid, scp.closeStack, string(debug.Stack())))
 	}
 }
